@@ -9,9 +9,13 @@
    reaches the body.  Which exception leaves may depend on the order of arrival (the first rejection wins, C12).
 
    Guard: self_guard (the name `self` arrives only as the implicit first positional argument and is no Parameter
-   name - outside it: C13_self_by_keyword_refuted).  C13_return_as_without_none additionally needs names_fit (every
-   name that reaches the function is one of its parameters, or it takes **kwargs): otherwise a surplus keyword
-   whose value is None is omitted together with the other None values and the call succeeds.
+   name - outside it the statements are FALSE on the current source: C13_self_by_keyword_refuted,
+   C13_external_supplies_self_refuted; open finding C13-K3).  C13_return_as_without_none additionally needs names_fit
+   (every name that reaches the function is one of its parameters, or it takes **kwargs) - outside it FALSE:
+   C13_return_as_without_none_refuted, open finding C13-K2 (a surplus keyword whose value is None is omitted with
+   the other None values: KWARGS_WITHOUT_NONE runs the body where ARGS and KWARGS_WITH_NONE end in TypeError).
+   The relational theorems are completed by C13_binding_is_specified (= C12_run_meets_spec): the binding is not
+   only the same for all styles / orders / modes, it is the one the specification demands.
    History: until /repo commit d10af45 `_as_args` fell back to arrival order when a name outside the signature
    reached a function without **kwargs (finding C13-K1 = C12-K1); the former refutations are now the Examples
    C13_K1_witness_fixed.
@@ -23,7 +27,7 @@
    test_return_as_args_advanced_different_order); the property text excludes them and so does the model.   *)
 From Coq Require Import List Arith Bool Permutation.
 From PV Require Import Base.Exn Model.ValidateSem Spec.ValidateSpec Proofs.ValidateDict Proofs.ValidateRef
-  Proofs.ValidateBind Proofs.ValidateGate Proofs.ValidateByName Gen.Validate.
+  Proofs.ValidateBind Proofs.ValidateGate Proofs.ValidateByName Proofs.ValidateSpecLink Gen.Validate.
 Import ListNotations.
 
 Definition vrun {value : Type} (is_none : value -> bool) :=
@@ -36,6 +40,22 @@ Print Assumptions C13_cfg_is_reference.
 
 Lemma vrun_ref : forall value is_none, @vrun value is_none = run value is_none reference_cfg reference_req_rule.
 Proof. intros. unfold vrun. destruct C13_cfg_is_reference as [-> ->]. reflexivity. Qed.
+
+(* THE BINDING IS THE SPECIFIED ONE (see C12_run_meets_spec): well-formed declaration and call - the run ends as
+   Spec/ValidateSpec.v spec_outcome demands, which is a function of the named assignment only *)
+Theorem C13_binding_is_specified : forall value is_none sg env dc c is_async,
+  decl_wellformed value sg dc = true -> call_wellformed value sg c = true ->
+  declared value dc self_name = false ->
+  (forall p, In p (d_params dc) -> derives (p_exc p) ParameterExceptionC = true) ->
+  snd (flask_m value env dc) = WOk tt ->
+  match spec_outcome value is_none sg dc c with
+  | DRaise rs => exists e pn, snd (vrun is_none sg env dc is_async c) = FRaise e pn /\ raise_allowed e pn rs
+  | DPythonRejects => snd (vrun is_none sg env dc is_async c) = FRaise TypeErrorC None
+  | DBody b => names_fit value sg dc c = true ->
+               exists b', snd (vrun is_none sg env dc is_async c) = FBody b' /\ deq b' b
+  end.
+Proof. intros value is_none. rewrite vrun_ref. intros. now apply run_meets_spec. Qed.
+Print Assumptions C13_binding_is_specified.
 
 (* CALL STYLE.  named_assignment c = which name is given which value (keywords, and positionals under the names
    of the parameters they bind to).  Two calls Python accepts with the same named assignment - any split into a
@@ -132,6 +152,25 @@ Example C13_K1_witness_fixed :
   snd (vrun nnone sg no_env (with_mode nat dc KWARGS_WITHOUT_NONE) false c) = FRaise TypeErrorC None.
 Proof. repeat split. Qed.
 
+(* outside names_fit (open finding C13-K2): def f(a), Parameter a, strict=False; f(a=1, z=None): ARGS and
+   KWARGS_WITH_NONE end in Python's TypeError for the unexpected keyword z, KWARGS_WITHOUT_NONE omits z together with
+   the other None values and runs the body (names: a=1, z=7; 0 plays None) *)
+Theorem C13_return_as_without_none_refuted : exists sg env dc is_async c,
+  self_guard nat sg dc c = true /\ names_fit nat sg dc c = false /\
+  ~ without_none_relation nat nnone sg
+      (snd (vrun nnone sg env (with_mode nat dc KWARGS_WITH_NONE) is_async c))
+      (snd (vrun nnone sg env (with_mode nat dc KWARGS_WITHOUT_NONE) is_async c)) /\
+  snd (vrun nnone sg env (with_mode nat dc ARGS) is_async c) = FRaise TypeErrorC None /\
+  snd (vrun nnone sg env (with_mode nat dc KWARGS_WITH_NONE) is_async c) = FRaise TypeErrorC None /\
+  snd (vrun nnone sg env (with_mode nat dc KWARGS_WITHOUT_NONE) is_async c) = FBody [(1, 1)].
+Proof.
+  exists (mksig [(1, None)] false), no_env,
+    {| d_params := [mkparam 1 [] true None None]; d_mode := ARGS; d_strict := false; d_ignore_input := false |},
+    false, {| c_args := []; c_kwargs := [(1, 1); (7, 0)] |}.
+  repeat split. intro H. vm_compute in H. discriminate H.
+Qed.
+Print Assumptions C13_return_as_without_none_refuted.
+
 (* outside self_guard the call-style statement is false on the current source *)
 (* (b) the name self by keyword: def f(self, a), Parameter a, strict: f(x, a=1) runs, f(self=x, a=1) raises *)
 Theorem C13_self_by_keyword_refuted : exists sg env dc is_async c c',
@@ -147,6 +186,26 @@ Proof.
   - intro H. vm_compute in H. exact H.
 Qed.
 Print Assumptions C13_self_by_keyword_refuted.
+
+(* outside self_guard, an external source declared under the name self: its value is bound to the first parameter
+   and never arrives under its own name *)
+Theorem C13_external_supplies_self_refuted : exists sg env dc is_async c j b p w v,
+  self_guard nat sg dc c = false /\ NoDup (map (@p_name nat) (d_params dc)) /\
+  vrun nnone sg env dc is_async c = (j, FBody b) /\ In p (d_params dc) /\
+  (forall w', ~ caller_gives nat sg dc c (p_name p) w') /\ external_gives nat p w /\
+  spec_param nat nnone p w = VPass v /\ d_mode dc <> KWARGS_WITHOUT_NONE /\ dget (p_name p) b <> Some v.
+Proof.
+  pose (x := Some {| e_has := true; e_load := Ok 8 |}).
+  exists {| s_params := [{| sp_name := 1; sp_kwonly := false; sp_default := Some 1 |}]; s_varkw := true |}, no_env,
+    {| d_params := [mkparam 0 [] true None x]; d_mode := KWARGS_WITH_NONE; d_strict := true; d_ignore_input := false |},
+    false, {| c_args := []; c_kwargs := [] |}, [], [(1, 8)], (mkparam 0 [] true None x), 8, 8.
+  repeat split; try reflexivity; try discriminate.
+  - repeat constructor. cbn. tauto.
+  - now left.
+  - intros w' [_ G]. destruct G.
+  - eexists. repeat split.
+Qed.
+Print Assumptions C13_external_supplies_self_refuted.
 
 (* ---- non-vacuity: def f(a, b, c=9), Parameters declared as (c, a, b) ---- *)
 Definition ex_sig := mksig [(1, None); (2, None); (3, Some 9)] false.
